@@ -4,10 +4,7 @@ package database
 
 import "github.com/safing/portbase/database/storage"
 
-// VerifController returns the controller of a registered database (verification harness only).
-func VerifController(name string) (*Controller, error) {
-	return getController(name)
-}
+// (VerifController, also used by this harness, is defined in verif_c14.go.)
 
 // VerifStorage returns the storage backend behind a controller (verification harness only).
 func (c *Controller) VerifStorage() storage.Interface {
